@@ -325,10 +325,12 @@ def pauli_table_sites(ctx: Ctx, rule: str) -> None:
     ci, fn = m.method('GUI', 'send_random_errors')
     maps = [n for n in ast.walk(fn) if isinstance(n, ast.Assign) and isinstance(n.value, ast.Dict)
             and all(isinstance(k, ast.Tuple) for k in n.value.keys) and len(n.value.keys) == 4]
-    ctx.need(len(maps) == 1, rule, site_of(ci.module, fn), 'bsf_to_str_map literal not found')
-    d = ast.literal_eval(maps[0].value)
-    ob(site_of(ci.module, maps[0]), 'GUI.send_random_errors bit-pair map', d, {v: k for k, v in BITS.items()},
-       'GUI.send_random_errors|bsf_to_str_map')
+    # (the map feeds a list the handler never returns: when the dead code is removed there is nothing to check)
+    ctx.need(len(maps) <= 1, rule, site_of(ci.module, fn), 'several bit-pair maps in send_random_errors')
+    if maps:
+        d = ast.literal_eval(maps[0].value)
+        ob(site_of(ci.module, maps[0]), 'GUI.send_random_errors bit-pair map', d, {v: k for k, v in BITS.items()},
+           'GUI.send_random_errors|bsf_to_str_map')
 
 
 def _int(v):
